@@ -37,6 +37,7 @@ var verifC13Src = []string{
 	"select id, (select count(*) from t as z where z.k = o.k + o.id + o.k + o.id + o.k + o.id + o.k + o.id + o.k + o.id - o.k) from o",
 	// process-wide random generators used from the workers
 	"select id, rand(), rand(1, 6) from t",
+	"select t.id, s.c from t, lateral (select count(*) as c from t as z where z.k = t.k) s",
 	"select id, (select count(*) from json_table('{id,k}', '[{\"id\":1,\"k\":1}]') jt where jt.k = t.k) from t",
 }
 var verifC13Queries []parser.SelectQuery
@@ -126,6 +127,7 @@ func VerifC13FileLoad() {
 	tx.Flags.Quiet = true
 	tx.Flags.CPU = 2
 	proc := NewProcessor(tx)
+	GetGoroutineManager().MinimumRequiredPerCore = 1 // the JSON Lines loader converts its rows with several workers
 	verifPreemptions(verifBound(0, 1))
 	verifRaces(true)
 	verifSchedules(true)
